@@ -329,6 +329,12 @@ func pmRun(c pmCase, prop string) (fail *vlib.Failure, rs pmRunStats) {
 		if f := checkAccounting("after " + when); f != nil {
 			return f, rs
 		}
+		// a call that has returned does not hold the allocator's lock any more (asked through the
+		// lock's own API): the next caller would otherwise wait forever
+		if !bitmapAllocator.mutex.TryToAcquire() {
+			return vlib.Failf("after %s: the allocator's lock is still held although the call has returned: every later allocate or free call blocks forever", when), rs
+		}
+		bitmapAllocator.mutex.Release()
 	}
 
 	// final: everything usable can be allocated, then out-of-memory (C03);
